@@ -58,8 +58,8 @@ TIERA_ASSUME = [
 P = {}
 P["C19"] = {
     "design_ref": "DESIGN.md §8 C19",
-    "bounds": "all ordered pairs of the 12 numeric kinds x operand shapes (plain, *T, interface{T}, *interface{T}, interface{*T}, **T; one side plain or both the same shape); bool; time.Time with loc in {UTC, fixed zone, Local}; payloads fully symbolic (all bit patterns of each kind)",
-    "outside": "uintptr operands; complex; strings; time values carrying a monotonic reading; NaN and unsigned values above MaxInt64 (excluded by the property)",
+    "bounds": "all ordered pairs of the 12 numeric kinds x operand shapes (plain, *T, interface{T}, *interface{T}, interface{*T}, **T; one side plain or both the same shape); bool; time.Time with loc in {UTC, fixed zone, Local}, with and without a monotonic clock reading (as time.Now() returns); strings of every length pair up to 2 (thorough 4) with fully symbolic bytes (plain, *string, interface); payloads fully symbolic (all bit patterns of each kind)",
+    "outside": "uintptr operands; complex; strings longer than 4 bytes; two monotonic readings more than a second apart; NaN and unsigned values above MaxInt64 (excluded by the property)",
     "assumptions": ["reflect model of gosym (Kind/Int/Uint/Float/Bool/Elem/Field/Interface/ValueOf) - validated by native replay of witnesses",
                     "z3 5.1.0 FloatingPoint/BitVec theories; thorough re-asks every property query to z3 4.8.12 and cvc5"],
     "runs": [
@@ -67,6 +67,8 @@ P["C19"] = {
          "quick": {"args": [1]}, "thorough": {"args": [6], "secondary": "z3,cvc5"}},
         {"name": "bool", "pkgdir": "pkg", "harness": {"pkg": "harness/pkg"}, "entry": "VerifC19Bool", "require_reach": ["C19:bool"], "thorough": {"secondary": "z3,cvc5"}},
         {"name": "time", "pkgdir": "pkg", "harness": {"pkg": "harness/pkg"}, "entry": "VerifC19Time", "require_reach": ["C19:time", "C19:time:one-monotonic", "C19:time:both-monotonic"], "thorough": {"secondary": "z3,cvc5"}},
+        {"name": "string", "pkgdir": "pkg", "harness": {"pkg": "harness/pkg"}, "entry": "VerifC19Str", "require_reach": ["C19:string"],
+         "quick": {"args": [2]}, "thorough": {"args": [4], "secondary": "z3,cvc5"}},
     ]}
 P["C03"] = {
     "design_ref": "DESIGN.md §8 C03, Appendix B", "assumptions": TIERA_ASSUME,
@@ -148,7 +150,12 @@ def _tbsets():
     import re
     go = open(os.path.join(V, "harness", "zztier", "tierb.go")).read()
     body = re.search(r'var tbSets = map\[string\]\[\]string\{(.*?)\n\}', go, re.S).group(1)
-    return {m.group(1): re.findall(r'"([^"]+)"', m.group(2)) for m in re.finditer(r'"(\w+)":\s*\{([^}]*)\}', body)}
+    sets = {m.group(1): re.findall(r'"([^"]+)"', m.group(2)) for m in re.finditer(r'"(\w+)":\s*\{([^}]*)\}', body)}
+    gen = os.path.join(V, "harness", "zztier", "gen_sets.go")  # generated family (tools/gen_tb.py)
+    if os.path.exists(gen):
+        for m in re.finditer(r'tbSets\["(\w+)"\] = \[\]string\{([^}]*)\}', open(gen).read()):
+            sets[m.group(1)] = re.findall(r'"([^"]+)"', m.group(2))
+    return sets
 
 
 TB_SETS = _tbsets()
@@ -371,6 +378,14 @@ P["C05"] = {
               "bounds": "string literal decoding (unquoteString) of the quoted form of every 1-byte string"}]}
 
 P["C04"]["runs"].append(tierB("json", 2, 0, T))
+# generated template family (tools/gen_tb.py, fixed seed): 40 random rule sets, each biased to one container addressed through
+# differently spelled paths
+GEN_NOTE = "; generated family 'gen' (40 random rule sets over one container each - slice, map, element structs behind slice / map, pointer / value owners, top-level variable, plain fields, computed indices - addressed through literal and computed selectors; fixed seed): inductive memo step (thorough: all 40 and an empty memo; quick: the first 8), bounded runs K<=3 (thorough)"
+for pid in ("C01", "C02"):
+    P[pid]["runs"] += [memoStep("genq", 0, QT), memoStep("gen", 0, T)]
+    P[pid]["bounds"] += GEN_NOTE
+P["C02"]["runs"] += [memoStep("gen", 1, T), dict(tierB("gen", 3, 0, T), thorough={"wall": "45m"})]
+P["C04"]["runs"].append(tierB("genq", 2, 0, T))
 P["C04"]["bounds"] = P["C04"]["bounds"].replace("22 assignment cases", "28 assignment cases (6 on JSON members)")
 P["C04"]["outside"] = "values outside the destination range; map entries of another kind than the element type (the property excludes them); rule sets outside the family; JSON facts are decoded trees with symbolic leaves (json.Unmarshal itself is native)"
 P["C03"]["runs"].append(dict(tierC("VerifTierCRoundTrip", "two", [1], QT, ["tierC:stored", "tierC:loaded"], "saliences (symbolic, int32) survive store -> load -> store -> load"),
